@@ -332,6 +332,10 @@ func (r *Report) writeEvidence(wall float64, nViol int) {
 		"known_findings_reported":      r.knownOut,
 		"explanation":                  r.pc.Note,
 	}
+	if len(r.bounded) > 0 {
+		// bounded stand-ins: run on the real code, labelled bounded, never counted among the discharged obligations
+		cov["bounded_stand_ins"] = r.bounded
+	}
 	if r.nObl == 0 || r.nDis == 0 {
 		// schema wants >= 1 for a proof claim; nothing to claim then
 		cov["evaluations"] = 1
@@ -401,6 +405,7 @@ func (r *Report) runBounded(dir string) {
 		rec["cases"] = cases
 		rec["failures"] = fails
 		r.bounded = append(r.bounded, rec)
+		fmt.Printf("BOUNDED (not a proof) name=%s bound=%d cases=%d failures=%d wall=%.1fs\n", b.Name, bound, cases, fails, secs)
 		if fails > 0 {
 			vi := &violation{name: "bounded:" + b.Name, reason: fmt.Sprintf("%d of %d cases of the bounded check fail on the real code", fails, cases), confirmed: true,
 				detail: "first failing input (run on the real code by the harness " + b.File + "):\n" + m[5] + "\n"}
